@@ -168,6 +168,8 @@ func methWord(c byte) string {
 		return "by value"
 	case 'p':
 		return "by pointer"
+	case 'd':
+		return "by pointer, Compare returns the difference"
 	}
 	return "interface{}"
 }
@@ -175,6 +177,11 @@ func methWord(c byte) string {
 // MStruct mirrors Types.tla MStruct: the fixture struct whose own Equal /
 // Compare / Hash methods look at the first field K only.
 func MStruct(mk string) *Type {
+	if mk == "pd" { // Types.tla KDStruct: Compare returns the (unclamped) difference; comparable, also a map key
+		t := Struct("KD", "local", F("K", Basic("int8")))
+		t.Meth = mk
+		return t
+	}
 	t := Struct("M"+mk, "local", F("K", Basic("int")), F("V", Basic("int")))
 	t.Meth = mk
 	return t
@@ -190,7 +197,7 @@ func methodDecls(name, first, mk string) string {
 		recv = "a *" + name
 	}
 	switch mk[1] {
-	case 'p':
+	case 'p', 'd':
 		arg = "b *" + name
 	case 'i':
 		arg = "bi interface{}"
@@ -205,6 +212,11 @@ func methodDecls(name, first, mk string) string {
 		nilCmp = "\tif b == nil {\n\t\treturn 1\n\t}\n"
 	}
 	f := first
+	if mk[1] == 'd' { // the usual hand-written convention: negative / zero / positive, not clamped
+		return fmt.Sprintf("func (%[1]s) Equal(%[2]s) bool {\n%[3]s\treturn a.%[5]s == b.%[5]s\n}\n\n"+
+			"func (%[1]s) Compare(%[2]s) int {\n%[4]s\treturn int(a.%[5]s) - int(b.%[5]s)\n}\n\n"+
+			"func (a %[6]s) Hash() uint64 { return uint64(a.%[5]s) }", recv, arg, nilEq, nilCmp, f, name)
+	}
 	return fmt.Sprintf("func (%[1]s) Equal(%[2]s) bool {\n%[3]s%[4]s\treturn a.%[6]s == b.%[6]s\n}\n\n"+
 		"func (%[1]s) Compare(%[2]s) int {\n%[3]s%[5]s\tif a.%[6]s < b.%[6]s {\n\t\treturn -1\n\t}\n\tif a.%[6]s > b.%[6]s {\n\t\treturn 1\n\t}\n\treturn 0\n}\n\n"+
 		"func (a %[7]s) Hash() uint64 { return uint64(a.%[6]s) }",
